@@ -126,6 +126,8 @@ class TSPFEA1p1revn(Algorithm):
         y: int = cast(int, process.evaluate(x))  # get length of first tour
         nm1: Final[int] = n - 1  # need n-1 in the loop for the random numbers
         nm2: Final[int] = n - 2  # we need this to check the move indices
+        if n <= 3:  # no sub-tour reversal exists for <= 3 cities, so
+            process.terminate()  # the loop below could never do an FE
         while not should_terminate():
             i = ri(nm1)  # get the first index
             j = ri(nm1)  # get the second index
